@@ -8,6 +8,7 @@
   Members are `xs.map Fl.fin` (finite) unless the theorem is about missing (NaN) members.
 -/
 import ScoresVerif.Lemmas.CrpsEns
+import ScoresVerif.Lemmas.CrpsEnsBrier
 
 namespace SV.Props.C06
 open SV SV.Model.CrpsEns SV.Spec.CrpsEns SV.Lemmas.CrpsEns
@@ -109,6 +110,39 @@ theorem tail_interval_tail_eq_crps (m : Method) {a b : Rat} (hab : a ≤ b) {xs 
   simp only [Fl.add_fin, kernel_partition m hab]
 example : enough .fair ([0, 1, 1] : List Rat).length := by show 2 ≤ 3; decide
 
+/-- … and so do the three components (`include_components=True`): underforecast, overforecast, spread -/
+theorem tail_interval_tail_eq_crps_components (m : Method) {a b : Rat} (hab : a ≤ b) {xs : List Rat}
+    (h : enough m xs.length) (y : Rat) :
+    let lo := tailLower (Fl.fin a) m (xs.map Fl.fin) (Fl.fin y)
+    let mid := interval (Fl.fin a) (Fl.fin b) m (xs.map Fl.fin) (Fl.fin y)
+    let hi := tailUpper (Fl.fin b) m (xs.map Fl.fin) (Fl.fin y)
+    let c := components m (xs.map Fl.fin) (Fl.fin y)
+    Fl.add (Fl.add lo.under mid.under) hi.under = c.under ∧
+    Fl.add (Fl.add lo.over mid.over) hi.over = c.over ∧
+    Fl.add (Fl.add lo.spread mid.spread) hi.spread = c.spread := by
+  have hne : xs ≠ [] := by intro e; cases m <;> simp [enough, e] at h
+  have hM := length_ne_zero hne
+  have n1 : xs.map (vLo a) ≠ [] := by simpa using hne
+  have n2 : xs.map (vMid a b) ≠ [] := by simpa using hne
+  have n3 : xs.map (vHi b) ≠ [] := by simpa using hne
+  have e1 : ∀ z, min z a = vLo a z := fun _ => rfl
+  have e2 : ∀ z, min (max z a) b = vMid a b z := fun _ => rfl
+  have e3 : ∀ z, max z b = vHi b z := fun _ => rfl
+  simp only [tailLower, tailUpper, interval, tw, components, map_chainLower, map_chainUpper, map_chainInterval,
+    chainLower, chainUpper, chainInterval, min_fin, max_fin]
+  rw [e1, e2, e3]
+  refine ⟨?_, ?_, ?_⟩
+  · rw [under_fin n1, under_fin n2, under_fin n3, under_fin hne]
+    simp only [Fl.add_fin, List.length_map]
+    rw [← underSum_partition hab xs y]; congr 1; ring
+  · rw [over_fin n1, over_fin n2, over_fin n3, over_fin hne]
+    simp only [Fl.add_fin, List.length_map]
+    rw [← overSum_partition hab xs y]; congr 1; ring
+  · rw [spreadComp_fin n1, spreadComp_fin n2, spreadComp_fin n3, spreadComp_fin hne,
+      spreadTerm_fin (by simpa using h), spreadTerm_fin (by simpa using h), spreadTerm_fin (by simpa using h), spreadTerm_fin h]
+    simp only [Fl.add_fin, spreadQ_partition m hab]
+example : enough .ecdf ([2] : List Rat).length := by show 1 ≤ 1; decide
+
 /-! ## 5. invariances -/
 
 /-- member order (any members, incl. NaN / inf; every component) -/
@@ -141,14 +175,32 @@ theorem crps_ecdf_eq_zero_iff {xs : List Rat} (hx : xs ≠ []) (y : Rat) :
 theorem crpsIntegral_nonneg (xs : List Rat) (y : Rat) : 0 ≤ crpsIntegral xs y :=
   stepIntegral_nonneg (fun t => by unfold integrand; positivity) (pairwise_grid _)
 
-/-
-  ◇ stretch, not proved here (carried by the oracle: exact step integration of the REAL brier_score_for_ensemble values
-  over the member/obs grid, compared with the real CRPS and with `Spec.brierIntegral` in exact arithmetic):
+/-! ## 7. integrating the ensemble Brier score over all thresholds reproduces the CRPS -/
 
-  theorem brier_integral_eq_crps_stmt {xs : List Rat} (hx : xs ≠ []) (y : Rat) :
-      brierIntegral false xs y = crpsIntegral xs y
-  theorem brier_integral_fair_eq_crps_stmt {xs : List Rat} (hx : 2 ≤ xs.length) (y : Rat) :
-      brierIntegral true xs y = crpsIntegral xs y - fairOffset xs
+/-- the per-case formula of `brier_score_for_ensemble` (model) is the documented one: (i/m − 1{y ≥ θ})² minus, with
+    `fair_correction`, i(m−i)/(m²(m−1)) (0 for a single member) -/
+theorem brierEns_eq_doc (fair : Bool) {xs : List Rat} (hx : xs ≠ []) (y θ : Rat) :
+    brierEns fair (xs.map Fl.fin) (Fl.fin y) (Fl.fin θ)
+      = Fl.fin (brier xs y θ - (if fair then brierFairCorr xs θ else 0)) := brierEns_fin fair hx y θ
+
+/-- ∫ Brier(θ) dθ = CRPS ('ecdf'), exact step integration over the member/obs grid -/
+theorem brier_integral_eq_crps {xs : List Rat} (hx : xs ≠ []) (y : Rat) :
+    brierIntegral false xs y = crpsIntegral xs y := brierIntegral_false_eq hx y
+
+/-- ∫ fair Brier(θ) dθ = fair CRPS -/
+theorem brier_integral_fair_eq_crps_fair {xs : List Rat} (hx : 2 ≤ xs.length) (y : Rat) :
+    brierIntegral true xs y = crpsIntegral xs y - fairOffset xs := brierIntegral_true_eq hx y
+
+/-- … hence equal to the values `crps_for_ensemble` (model) returns -/
+theorem brier_integral_eq_crpsEns {xs : List Rat} (hx : xs ≠ []) (y : Rat) :
+    total .ecdf (xs.map Fl.fin) (Fl.fin y) = Fl.fin (brierIntegral false xs y) := by
+  rw [brier_integral_eq_crps hx, crpsEns_ecdf_eq_integral hx]
+theorem brier_integral_fair_eq_crpsEns_fair {xs : List Rat} (hx : 2 ≤ xs.length) (y : Rat) :
+    total .fair (xs.map Fl.fin) (Fl.fin y) = Fl.fin (brierIntegral true xs y) := by
+  rw [brier_integral_fair_eq_crps_fair hx, crpsEns_fair_eq_integral_sub_offset hx]
+
+/-
+  ◇ stretch, not proved here (carried by the oracle in exact arithmetic against `Spec.twIntegral`):
   theorem tw_eq_weighted_integral_stmt … : (tw-variant).total = Fl.fin (twIntegral a? b? xs y)
 -/
 
